@@ -306,10 +306,14 @@ def cmpF64 : Cmp → Nat → Nat → Bool
   | .gt, a, b => F64.gt a b
   | .gte, a, b => F64.ge a b
 
-/-- `str::split_once(':')`: the text after the first colon -/
-def afterColon : Bytes → Option Bytes
+/-- `str::split_once(':')`: the text before and after the first colon -/
+def splitColon : Bytes → Option (Bytes × Bytes)
   | [] => none
-  | c :: r => if c == 58 then some r else afterColon r
+  | c :: r =>
+    if c == 58 then some ([], r)
+    else match splitColon r with
+      | some (k, v) => some (c :: k, v)
+      | none => none
 
 def VList.anyV (f : Value → Bool) : VList → Bool
   | .nil => false
@@ -430,10 +434,11 @@ def filterCompare (E : Env) (field : Field) (c : Cmp) (cv : CV) : Build Matcher 
   withField field <|
     match field with
     | .attr _ => compareAttr E c cv
-    | .tag _ =>
-      -- tag values are extracted by "key:value"; the key is not looked at
-      onArray fun v => match afterColon (stringValue E v) with
-        | some lhs => cmpBytes c lhs rhs
+    | .tag tag =>
+      -- tag values are extracted by "key:value"; only the values of the queried tag are compared
+      -- (`Some((key, lhs)) if key == tag`, /repo d99b562)
+      onArray fun v => match splitColon (stringValue E v) with
+        | some (key, lhs) => key == utf8 tag && cmpBytes c lhs rhs
         | none => false
     | _ => fun value => cmpBytes c (stringValue E value) rhs
 
